@@ -103,6 +103,44 @@ def gen_universe(rng: random.Random, **opts: Any) -> dict:
                 )
         if opts.get("link_repertoire"):
             links = gen_link_repertoire(rng, kinds, props, required, qparams, id_type, opts)
+        examples = []
+        if opts.get("p_examples", 0.0) > 0:
+            def sample_value(schema, k):
+                t = schema.get("type")
+                if "enum" in schema:
+                    return schema["enum"][k % len(schema["enum"])]
+                if t == "integer":
+                    lo, hi = schema.get("minimum", 0), schema.get("maximum", 50)
+                    return min(hi, lo + 1 + k)
+                if t == "boolean":
+                    return k % 2 == 0
+                return ["ab", "cd", "ef", "gh"][k % 4][: schema.get("maxLength", 8)]
+
+            pe = opts["p_examples"]
+            for k in kinds:
+                if k == "list":
+                    for qp in qparams:
+                        if rng.random() < pe:
+                            n = rng.randint(1, 3)
+                            examples.append({"kind": k, "where": "param", "in": "query", "name": qp["name"],
+                                             "form": rng.choice(["example", "examples", "examples", "schema_example"]) if n == 1 else "examples",
+                                             "values": [sample_value(qp["schema"], j) for j in range(n)]})
+                if k in ("read", "update", "delete") and rng.random() < pe * 0.6:
+                    examples.append({"kind": k, "where": "param", "in": "path", "name": "id", "form": rng.choice(["example", "examples"]),
+                                     "values": [7 if id_type == "integer" else "r7"]})
+                if k in ("create", "update") and rng.random() < pe:
+                    n = rng.randint(1, 2)
+                    bodies = []
+                    for j in range(n):
+                        bodies.append({p[0]: sample_value(p[1], j) for p in props if p[0] in required or rng.random() < 0.5})
+                    examples.append({"kind": k, "where": "media", "form": "example" if n == 1 and rng.random() < 0.5 else "examples", "values": bodies})
+                elif k in ("create", "update") and rng.random() < pe * 0.5:
+                    pn = rng.choice([p[0] for p in props])
+                    examples.append({"kind": k, "where": "property", "name": pn, "values": [sample_value(dict(props)[pn], 2)]})
+            if hdr is not None and rng.random() < pe:
+                n = rng.randint(1, 3)
+                examples.append({"kind": hdr["on"], "where": "param", "in": "header", "name": hdr["name"],
+                                 "form": "example" if n == 1 else "examples", "values": ["abc", "abd", "abe"][:n]})
         path_level = None
         if rng.random() < opts.get("p_path_level", 0.0):
             path_level = {"on": rng.choice(["coll", "item"]), "override": rng.random() < 0.6, "extra": rng.random() < 0.7}
@@ -126,9 +164,10 @@ def gen_universe(rng: random.Random, **opts: Any) -> dict:
                 and not any(l["by"] == "operationId" and l["to"] == k for l in links)
             ],
             "path_level": path_level,
-            "examples": [],
+            "examples": examples,
             "upper_methods": rng.random() < opts.get("p_upper_methods", 0.0),
             "nested": ("create" in kinds and rng.random() < opts.get("p_nested", 0.0)),
+            "x_internal": [k for k in kinds if rng.random() < opts.get("p_x_internal", 0.0)],
         }
         collections.append(coll)
     if opts.get("s_siblings") and len(collections) >= 2:
@@ -224,6 +263,7 @@ class RefOp:
     links: list = field(default_factory=list)  # outgoing link dicts (with resolved "target" op key)
     examples: list = field(default_factory=list)
     secured: bool = False
+    x_internal: bool = False
 
     @property
     def label(self) -> str:
@@ -277,6 +317,8 @@ class Universe:
                     op["tags"] = list(tags)
                 if kind in coll["deprecated"]:
                     op["deprecated"] = True
+                if kind in (coll.get("x_internal") or []):
+                    op["x-internal"] = True
                 params: list[dict] = []
                 ref_params: list[RefParam] = []
                 if kind in ("read", "update", "delete"):
@@ -352,6 +394,37 @@ class Universe:
                     responses=list(responses),
                 )
                 self.ops[key].secured = secured
+                self.ops[key].x_internal = kind in (coll.get("x_internal") or [])
+            for ex in coll.get("examples") or []:
+                kind = ex["kind"]
+                pth = coll_path if kind in ("create", "list") else item_path
+                opdef = paths[pth][self._mkey(coll, kind)]
+                refop = self.ops[f"{KIND_METHOD[kind].upper()} {pth}"]
+                if ex["where"] == "param":
+                    pdef = next(q for q in opdef["parameters"] if q["name"] == ex["name"] and q["in"] == ex["in"])
+                    if ex["form"] == "example":
+                        pdef["example"] = ex["values"][0]
+                    elif ex["form"] == "schema_example":
+                        pdef["schema"]["example"] = ex["values"][0]
+                    else:
+                        pdef["examples"] = {f"e{j}": {"value": val} for j, val in enumerate(ex["values"])}
+                    for val in ex["values"]:
+                        refop.examples.append({"location": ex["in"], "name": ex["name"], "value": val})
+                elif ex["where"] == "media":
+                    media = opdef["requestBody"]["content"]["application/json"]
+                    if ex["form"] == "example":
+                        media["example"] = ex["values"][0]
+                    else:
+                        media["examples"] = {f"b{j}": {"value": val} for j, val in enumerate(ex["values"])}
+                    for val in ex["values"]:
+                        refop.examples.append({"location": "body", "name": None, "value": val})
+                elif ex["where"] == "property":
+                    # inline copy of the body schema so that the example belongs to this operation only
+                    media = opdef["requestBody"]["content"]["application/json"]
+                    inline = copy.deepcopy(new_schema)
+                    inline["properties"][ex["name"]]["example"] = ex["values"][0]
+                    media["schema"] = inline
+                    refop.examples.append({"location": "body_property", "name": ex["name"], "value": ex["values"][0]})
             pl = coll.get("path_level")
             if pl:
                 ppath = coll_path if pl["on"] == "coll" else item_path
